@@ -14,8 +14,8 @@ import (
 func init() {
 	vRegister("vC34_init", vC34_init)
 	vRegister("vC34_step", vC34_step)
-	vRegister("vC34_history2", vC34_history2)
 	vRegister("vC34_history3", vC34_history3)
+	vRegister("vC34_history4", vC34_history4)
 	vRegister("vC34_redeparture", vC34_redeparture)
 }
 
@@ -109,7 +109,7 @@ var vC34_invNames = [vC34_nInv]string{
 	"invariant: the local node is never a pending arrival nor in the NodeJoined filter",
 	"invariant: pending departures / arrivals were notified",
 	"invariant: a node reported and not yet superseded by the opposite event is in the corresponding filter",
-	"invariant: a node whose last report is NodeLeft is in the NodeLeft filter",
+	"invariant: a node whose last report is NodeLeft is in the NodeLeft filter, a node never reported is not",
 	"invariant: a departure that still has to be reported is pending",
 	"invariant: the monitor's epochs are the ones the cluster recorded",
 }
@@ -155,7 +155,7 @@ func vC34_inv(x *cluster, m *vC34Mon) [vC34_nInv]bool {
 		if (m.leftOpen[c] && !lf) || (m.joinedOpen[c] && !jf) {
 			r[8] = false
 		}
-		if m.lastOut[c] == 1 && !lf {
+		if (m.lastOut[c] == 1 && !lf) || (m.lastOut[c] == 0 && lf) {
 			r[9] = false
 		}
 		if c != 0 && m.wantLeft[c] && !lt {
@@ -235,7 +235,7 @@ func vC34_step() {
 	for i := 0; i < vC34_nInv; i++ {
 		vAssume(pre[i])
 	}
-	vC34_notify(x, &m, 5, true)
+	vC34_notify(x, &m, 5, vCase("kind")) // the kind of notification is split into one job per kind
 	post := vC34_inv(x, &m)
 	for i := 0; i < vC34_nInv; i++ {
 		vAssert(post[i], vC34_invNames[i])
@@ -243,28 +243,34 @@ func vC34_step() {
 	vCover("end")
 }
 
-func vC34_history2() { vC34_run(2) }
-func vC34_history3() { vC34_run(3) }
+func vC34_history3() { vC34_run(3, 1) }
+func vC34_history4() { vC34_run(4, 2) }
 
-// bounded history from the real initial state
-func vC34_run(K int) {
+var vC34_caseNames = [2]string{"kind0", "kind1"}
+
+// bounded history of K notifications from the real initial state (the kinds of the first nCase notifications are split
+// into one job per combination, everything else is symbolic)
+func vC34_run(K int, nCase int) {
 	x := vC34_newCluster(K) // a step emits at most one event per earlier notification, so K slots never overflow
 	var m vC34Mon
 	for k := 0; k < K; k++ {
-		vC34_notify(x, &m, k, true)
+		if k < nCase {
+			vC34_notify(x, &m, k, vCase(vC34_caseNames[k]))
+		} else {
+			vC34_notify(x, &m, k, vChoose("kind", 5))
+		}
 	}
 	vCover("end")
 }
 
 // one notification (kind, the node it names, and for rebalance events epoch and reason), then everything it emitted
-func vC34_notify(x *cluster, m *vC34Mon, k int, progress bool) {
-	kind := vChoose("kind", 5)
+func vC34_notify(x *cluster, m *vC34Mon, k int, kind int) {
 	n := vChoose("node", 4)
 	e := vChoose("epoch", 3) + 1
 	r := vChoose("reason", 3)
 	ts := int64(k+1) * 1000000
 	reason, rnode := vC34_reasons[r], vC34_names[n]
-	newDeparture := -1
+	newDeparture, rejoined := -1, false
 	// the node / epoch are dispatched over their (small) domains so the handlers run on concrete map keys
 	for c := 0; c < 4; c++ {
 		if n != c {
@@ -281,6 +287,7 @@ func vC34_notify(x *cluster, m *vC34Mon, k int, progress bool) {
 			if m.lastOut[c] != 1 {
 				m.wantLeft[c] = true
 				newDeparture = c
+				rejoined = m.lastOut[c] == 2 && x.nodeLeftEventsFilter.Contains(vC34_names[c])
 			}
 			x.trackNodeLeftEvent(events.NodeLeftEvent{NodeLeft: vC34_names[c], Timestamp: ts})
 		case vC34_overdue:
@@ -311,7 +318,10 @@ func vC34_notify(x *cluster, m *vC34Mon, k int, progress bool) {
 	joinSettled := m.joinLatest != 0 && m.completeSeen[m.joinLatest]
 
 	// everything the step emitted
-	for len(x.events) > 0 {
+	for j := 0; j < cap(x.events); j++ {
+		if len(x.events) == 0 {
+			break
+		}
 		ev := <-x.events
 		switch p := ev.Payload.(type) {
 		case *NodeLeftEvent:
@@ -354,10 +364,19 @@ func vC34_notify(x *cluster, m *vC34Mon, k int, progress bool) {
 		}
 	}
 
-	if progress {
+	{
 		for i := 1; i < 4; i++ {
 			if newDeparture == i {
-				vAssert(!m.wantLeft[i] || vC34_in(x.nodeLeftTimestamps, vC34_names[i]), "a departure notified while the node is not reported as left is recorded (or reported at once)")
+				recorded := !m.wantLeft[i] || vC34_in(x.nodeLeftTimestamps, vC34_names[i])
+				if rejoined {
+					// known finding C34-2: the NodeLeft filter is never cleared, so this case is kept apart from the general rule
+					vAssert(recorded, "a node that was reported as left, then as joined, and leaves again is recorded as a new departure")
+				} else {
+					vAssert(recorded, "a departure notified while the node is not reported as left is recorded (or reported at once)")
+				}
+				if !recorded {
+					m.wantLeft[i] = false // reported above; do not let it fail the remaining obligations as well
+				}
 			}
 			if kind == vC34_overdue && n == i {
 				vAssert(!m.wantLeft[i], "a recorded departure is reported when its timeout fires")
